@@ -573,6 +573,8 @@ class Engine(object):
         self.memo_floor = {}
         self.memo_prod = {}
         self.witness_dirty = False
+        self.qp_memo = {}
+        self.ivl = {}  # var id -> (lo, hi) interval known from the value box (None = unbounded)
 
     # ------------------------------------------------------------------ variables
     def _newvar(self, name, sort):
@@ -596,6 +598,7 @@ class Engine(object):
         if hi is not None:
             cons.append(x < hi if hi_strict else x <= hi)
         self._init_witness(i, name, cons)
+        self.ivl[i] = (None if lo is None else _frac(lo), None if hi is None else _frac(hi))
         for c in cons:
             self.assume(c)
         return x
@@ -851,6 +854,25 @@ class Engine(object):
             self.nl.add(i)
         return i
 
+    def lin_interval(self, l):
+        lo = hi = l.c
+        for v, k in l.t.items():
+            a, b = self.ivl.get(v, (None, None))
+            if k < 0:
+                a, b = b, a
+            lo = None if (lo is None or a is None) else lo + k * a
+            hi = None if (hi is None or b is None) else hi + k * b
+        return lo, hi
+
+    def _bound_nl(self, i, lo, hi):
+        """interval facts about a deferred non-linear variable are LINEAR and sound: give them to the solver"""
+        self.ivl[i] = (lo, hi)
+        x = Lin.var(i)
+        if lo is not None:
+            self.solver.add(_b(_cmp(Lin.const(lo).sub(x), "le")).z3(self))
+        if hi is not None:
+            self.solver.add(_b(_cmp(x.sub(Lin.const(hi)), "le")).z3(self))
+
     def _depends_nl(self, *lins):
         return bool(self.nl) and any((set(l.t) & self.nl) for l in lins)
 
@@ -866,6 +888,13 @@ class Engine(object):
             self.deferred_z3defs.append(mk)
         else:
             self.solver.add(mk())
+        (al, ah), (bl, bh) = self.lin_interval(a), self.lin_interval(b)
+        if None not in (al, ah, bl, bh):
+            c = [al * bl, al * bh, ah * bl, ah * bh]
+            lo, hi = min(c), max(c)
+            if ka == kb:
+                lo = max(lo, F0) if not (al <= 0 <= ah) else F0
+            self._bound_nl(i, lo, hi)
         return Lin.var(i)
 
     def nl_quotient(self, n, d):
@@ -990,19 +1019,25 @@ class Engine(object):
     def check(self, name, prop, assumptions=(), extra_z3=(), info=None, witness_needed=True):
         """assert `prop` under `assumptions` for the whole region of the current path.
         extra_z3: raw z3 constraints (oracle definitions with fresh solver variables)."""
-        st = self.stats
-        st.checks += 1
         a = And(*assumptions) if assumptions else True
         if a is False:
+            self.stats.checks += 1
             self.events.append(("unreachable", name))
             return "unreachable"
         za = [] if a is True else [_b(a).z3(self)]
         za += list(extra_z3)
         if prop is True:
-            st.checks_concrete += 1
+            self.stats.checks += 1
+            self.stats.checks_concrete += 1
             return "unsat"
         zp = z3.BoolVal(False) if prop is False else _b(prop).z3(self)
-        r = self._check(*(za + [z3.Not(zp)]))
+        return self.check_z3(name, za, z3.Not(zp), info)
+
+    def check_z3(self, name, za, znot, info=None):
+        """decide  pc and za and znot ; unsat = the property holds on the whole region of this path"""
+        st = self.stats
+        st.checks += 1
+        r = self._check(*(list(za) + [znot]))
         if r == z3.unsat:
             st.checks_unsat += 1
             return "unsat"
@@ -1010,16 +1045,49 @@ class Engine(object):
             m = self.solver.model()
             basevals = self._model_to_base(m)
             if self.deferred:
-                # candidate lives on an over-approximated path: caller replays; keep the flag
-                pass
+                # the candidate lives on an over-approximated path (non-linear tests were forked without a
+                # feasibility check): re-decide WITH the deferred constraints and their definitions (nlsat budget)
+                rr, bv = self._requery_deferred(za, znot)
+                if rr == "unsat":
+                    st.__dict__["spurious_discharged_with_deferred"] = st.__dict__.get("spurious_discharged_with_deferred", 0) + 1
+                    st.checks_unsat += 1
+                    return "unsat"
+                if rr == "unknown":
+                    # undecided symbolically: keep the candidate, the runner replays it on the real code
+                    # (reproduces => genuine violation; otherwise the run is inconclusive)
+                    st.checks_unknown += 1
+                    st.gaps.append("unknown on check %s after adding the deferred non-linear constraints" % name)
+                    self.findings.append(dict(check=name, inputs={k: str(v) for k, v in basevals.items()}, deferred=len(self.deferred), info=info, prefix=[], undecided=True))
+                    return "unknown"
+                basevals = bv
             st.checks_sat += 1
-            self.findings.append(
-                dict(check=name, inputs={k: str(v) for k, v in basevals.items()}, deferred=len(self.deferred), info=info, prefix=list(self.prefix[: self.idx]))
-            )
+            self.findings.append(dict(check=name, inputs={k: str(v) for k, v in basevals.items()}, deferred=len(self.deferred), info=info, prefix=[]))
             return "sat"
         st.checks_unknown += 1
-        self.stats.gaps.append("unknown on check %s" % name)
+        st.gaps.append("unknown on check %s" % name)
         return "unknown"
+
+    def _requery_deferred(self, za, znot, timeout_ms=30000):
+        s2 = z3.Solver()
+        s2.set("timeout", timeout_ms)
+        for a in self.solver.assertions():
+            s2.add(a)
+        for mk in self.deferred_z3defs:
+            s2.add(mk())
+        for c in self.deferred:
+            s2.add(_b(c).z3(self))
+        t = time.time()
+        r = s2.check(*(list(za) + [znot]))
+        self.stats.solver_s += time.time() - t
+        self.stats.queries += 1
+        if r == z3.unsat:
+            return "unsat", None
+        if r == z3.sat:
+            try:
+                return "sat", self._model_to_base(s2.model())
+            except ModelGap:
+                return "unknown", None
+        return "unknown", None
 
     def reachable(self, assumptions=(), extra_z3=()):
         a = And(*assumptions) if assumptions else True
